@@ -306,6 +306,34 @@ def run(ctx, chk, tier="quick"):
     chk.ob("C05.O1", inc_ok, where_of(f, incs[0] if incs else inner), "row counter advances once per (level, interval), after the row is written: %s" % inc_ok,
            "one equation per crossing", key="find_offsets|row-counter")
 
+    # every level of the mapping and every member of a level contributes its row: no cycle of the
+    # level loop avoids the member loop, no cycle of the member loop avoids the row copy / rhs store
+    cfg = flow.cfg
+    oh, ih = cfg.node(outer), cfg.node(inner)
+    n_copy, n_rhs = cfg.node(row_copy), cfg.node(rhs)
+    def cycle_avoiding(header, avoid):
+        """Is there a cycle header -> ... -> header inside the loop that avoids `avoid`?"""
+        members = cfg.loop_members.get(header, set())
+        outside = set(cfg.nodes()) - members
+        return header in cfg.reachable_from(header, avoiding=outside | {avoid})
+
+    skip_level = oh is not None and ih is not None and cycle_avoiding(oh, ih)
+    skip_member = ih is not None and (cycle_avoiding(ih, n_copy) or cycle_avoiding(ih, n_rhs))
+    chk.ob("C05.O1", not skip_level and not skip_member, where_of(f, outer),
+           "an iteration of the level loop can skip the member loop: %s; an iteration of the member loop can skip the row: %s" % (skip_level, skip_member),
+           "one residual row for every (level, interval) crossing in the mapping", key="find_offsets|no-skipped-rows",
+           why="a level left out of the system still appears in the master curve: the offsets then do not minimise the spread that is reported")
+    # the mapping iterated is the function's (pruned) input, and A, b are used whole
+    it_txt = ast.unparse(outer.iter)
+    whole = True
+    for side in ("m1", "m2"):
+        pass
+    sliced = [n for n in ast.walk(f.node) if isinstance(n, ast.Assign) and any(isinstance(t, (ast.Name, ast.Tuple)) and
+              any(isinstance(x, ast.Name) and x.id in (A, b) for x in ast.walk(t)) for t in n.targets)
+              and any(isinstance(x, ast.Subscript) and isinstance(x.slice, ast.Slice) and isinstance(x.value, ast.Name) and x.value.id in (A, b) for x in ast.walk(n.value))]
+    chk.ob("C05.O1", f.params[0] in it_txt and not sliced, where_of(f, sliced[0] if sliced else outer),
+           "level loop over %s; system truncated before solving: %s" % (it_txt, bool(sliced)),
+           "all levels of the mapping, all assembled rows", key="find_offsets|whole-system")
     # ---------------- O3: reference position
     if ref_name:
         probe = None
